@@ -284,6 +284,9 @@ def run(ctx):
             w = {"files": files, "dirs": [], "applied": None, "series": series, "patches": {b"p.patch": patch}}
             cfg = l3gen.default_cfg()
             cfg["threads"] = rng.choice([1, 1, 2])
+            if rng.random() < 0.35:
+                cfg["extra"] = ["--mmap"]          # how the file is held in memory must not matter
+                hist["push with --mmap"] += 1
             r, out, _ = l3gen.run_real(ctx.binary, w, cfg)
             got = dict((p.split()[1], p) for p in r.split(" | ")[1:] if p.startswith("F "))
             key = "/".join(x.hex() for x in name.split(b"/"))
